@@ -121,6 +121,43 @@ fn main() {
             std::fs::write(&args[4], serde_json::to_string(&v).unwrap()).unwrap();
             println!("{}", json!({"vectors": v.len()}));
         }
+        Some("hookvec") => {
+            // hookvec <seed> <n> <out>: the contract's derive_intermediate_sender next to the simulator's own
+            // transcription of the Osmosis keeper formula, on generated (channel, sender, prefix) triples
+            use rand::{Rng, SeedableRng};
+            let seed: u64 = args[2].parse().unwrap();
+            let n: usize = args[3].parse().unwrap();
+            let mut rng = rand::rngs::StdRng::seed_from_u64(seed);
+            let mut out = std::io::BufWriter::new(std::fs::File::create(&args[4]).unwrap());
+            use std::io::Write;
+            let prefixes = ["osmo", "celestia", "init", "milk"];
+            let mut k = 0;
+            while k < n {
+                let ch = match rng.gen_range(0..6) {
+                    0 => "channel-0".to_string(),
+                    1 => "channel-1".to_string(),
+                    2 => format!("channel-{}", rng.gen_range(0..20u64)),
+                    3 => format!("channel-{}", rng.gen::<u32>()),
+                    4 => format!("channel-{}", rng.gen::<u64>()),
+                    _ => format!("channel-1{}", rng.gen_range(0..10u64)),
+                };
+                let sp = prefixes[rng.gen_range(0..prefixes.len())];
+                let sender = match rng.gen_range(0..5) {
+                    0 => store::mk_addr(sp, &format!("s{}", rng.gen_range(0..6u32)), 20),
+                    1 => store::mk_addr(sp, &format!("c{}", rng.gen::<u32>()), 32),
+                    2 => format!("{}/{}", rng.gen_range(0..9u32), store::mk_addr(sp, "x", 20)),
+                    3 => store::mk_addr(sp, &format!("r{}", rng.gen::<u64>()), 20),
+                    _ => store::mk_addr(sp, &format!("s{}", rng.gen_range(0..6u32)), 20).to_uppercase(),
+                };
+                let prefix = prefixes[rng.gen_range(0..prefixes.len())];
+                let imp = std::panic::catch_unwind(|| staking::helpers::derive_intermediate_sender(&ch, &sender, prefix))
+                    .map(|r| r.unwrap_or_else(|e| format!("error: {e}")))
+                    .unwrap_or("panic".into());
+                let sim = store::hook_account(&ch, &sender, prefix);
+                writeln!(out, "{}", json!({"channel": ch, "sender": sender, "prefix": prefix, "impl": imp, "sim": sim})).unwrap();
+                k += 1;
+            }
+        }
         Some("tree") => {
             // tree <tlc-output-with-EDGE-lines> <out.ndjson> <sample_mod> <seed>
             let text = std::fs::read_to_string(&args[2]).unwrap();
